@@ -173,7 +173,7 @@ def run(ctx: Ctx, extended: bool = False) -> None:
     for _ in range(n_eq):
         s = gen_structure(rng)
         t1 = instantiate(rng, s, use_dc=False)
-        mode = int(rng.integers(5))
+        mode = int(rng.integers(7))
         if mode == 0:
             t2 = tree_lib.map_structure(lambda x: np.array(x), t1)
         elif mode == 1:  # perturb one leaf
@@ -189,6 +189,11 @@ def run(ctx: Ctx, extended: bool = False) -> None:
             t2 = tree_lib.map_structure(lambda x: np.array(x).reshape((1,) + np.shape(x)), t1)
         elif mode == 3:  # other dtype, same values
             t2 = tree_lib.map_structure(lambda x: np.array(x).astype(np.float64), t1)
+        elif mode == 5:  # other dtype AND values that do not survive a cast to the first tree's dtype (fractional / out of range)
+            t2 = tree_lib.map_structure(lambda x: np.array(x).astype(np.float64) + (0.5 if np.array(x).dtype != bool else 1.0), t1)
+        elif mode == 6:  # the same, the other way round: the first tree is the wide one
+            t2 = t1
+            t1 = tree_lib.map_structure(lambda x: np.array(x).astype(np.float64) + (0.25 if np.array(x).dtype != bool else 2.0), t2)
         else:  # other structure
             t2 = instantiate(rng, gen_structure(rng), use_dc=False)
         ctx.evaluations += 1
